@@ -65,6 +65,7 @@ def dmap(doc: Document) -> dict:
         "separator": bool(doc.has_separator),
         "body": [nmap(s) for s in doc.sections],
         "trailing": list(doc.trailing_comments or []),
+        "hc": {},        # the AST has no place for header/footer comments
     }
 
 
@@ -82,6 +83,10 @@ def diff(expected: dict, observed: dict) -> list[str]:
     out += _nodes_diff("body", expected["body"], observed["body"])
     if expected["trailing"] != observed["trailing"]:
         out.append(f"doc.trailing:{len(expected['trailing'])}->{len(observed['trailing'])}")
+    eh, oh = expected.get("hc") or {}, observed.get("hc") or {}
+    for k in sorted(set(eh) | set(oh)):
+        if eh.get(k, []) != oh.get(k, []):
+            out.append(f"doc.header-comment.{k}:{len(eh.get(k, []))}->{len(oh.get(k, []))}")
     return out
 
 
